@@ -44,8 +44,15 @@ def known_class(ctx, ex, it):
     for f in ctx.findings_for():
         cls = f.get("class")
         if cls == "mixed-closedness-tagged-enum":
-            closed = [b.get("additionalProperties") is False for b in br]
-            if ent.get("kind") == "enum" and ent.get("deny") and br and any(closed) and not all(closed) \
+            # every inline object the enum's container-level attribute reaches: the branches and
+            # their inline object payloads
+            objs = list(br)
+            for b in br:
+                for ps in b.get("properties", {}).values():
+                    if isinstance(ps, dict) and ps.get("type") == "object" and "properties" in ps:
+                        objs.append(ps)
+            closed = [b.get("additionalProperties") is False for b in objs]
+            if ent.get("kind") == "enum" and ent.get("deny") and objs and any(closed) and not all(closed) \
                     and "unknown field" in err:
                 return f
         if cls == "internal-document-read-as-adjacent":
